@@ -95,13 +95,14 @@ RetryAlwaysSucceeds == Evaluated => NoRaise
 
 View == <<arr, res>>
 \* compact emission (integers only): record = ((t*100+o)*10+s)*10+z; f = arrivals monotone within every file;
-\* o[L] = flush order as decimal digits; m[L] = at*100 + back-pressures*10 + batches (at = index of the record
+\* srt = composite-key order of the arrivals; o[L] = flush order as decimal digits; m[L] = at*100 + back-pressures*10 + batches (at = index of the record
 \* whose retry raised, 0 = run completed).  (Whether the outcome is limit-independent is recomputed from o by
 \* the harness: evaluating the primed invariant inside the emitter is slow.)
 RECURSIVE Digits(_)
 Digits(q) == IF q = <<>> THEN 0 ELSE Digits(SubSeq(q, 1, Len(q) - 1)) * 10 + q[Len(q)]
 Emit == PrintT(<<"T", ToJson([a |-> [i \in 1..Len(arr) |-> ((arr[i].t * 100 + arr[i].o) * 10 + arr[i].s) * 10 + arr[i].z],
                               f |-> (IF Monotone(arr) THEN 1 ELSE 0),
+                              srt |-> Digits(SortedAll(arr)),
                               o |-> [L \in Limits |-> Digits(res'[L].out)],
                               m |-> [L \in Limits |-> res'[L].at * 100 + res'[L].bp * 10 + Len(res'[L].batches)]])>>)
 =============================================================================
